@@ -6,6 +6,7 @@ import RosuModel.Model.Cmds.Frame
 import RosuModel.Model.Cmds.Codec
 import RosuModel.Model.Cmds.Sections
 import RosuModel.Model.Cmds.HitObj
+import RosuModel.Model.Cmds.Events
 namespace Rosu
 
 def dispatch (toks : List String) : String :=
@@ -14,6 +15,7 @@ def dispatch (toks : List String) : String :=
     |>.orElse (fun _ => dispatchCodec toks)
     |>.orElse (fun _ => dispatchSections toks)
     |>.orElse (fun _ => dispatchHitObj toks)
+    |>.orElse (fun _ => dispatchEvents toks)
     ).getD "bad-request"
 
 end Rosu
